@@ -3,7 +3,7 @@
 id=${1:?seed}; prop=${2:?prop}; tier=${3:-quick}
 V=$(cd "$(dirname "$0")/.." && pwd); W=/tmp/seedrun/$id-$$
 mkdir -p /tmp/seedrun; git -C /repo worktree add -q "$W" HEAD || exit 2
-git -C "$W" apply "$V/seeded/$id/patch.diff" || { echo "patch does not apply"; git -C /repo worktree remove --force "$W"; exit 2; }
+git -C "$W" apply "$V/seeded/$id/patch.diff" 2>/dev/null || git -C "$W" apply --3way "$V/seeded/$id/patch.diff" >/dev/null 2>&1 || { echo "patch does not apply"; git -C /repo worktree remove --force "$W"; exit 2; }
 cd "$V" && DCG_REPO="$W" ./check "$prop" --tier "$tier" 2>&1 | grep -v conda | grep -E "VIOLATION|^OK|BROKEN|DISAGREEMENT|ORACLE-FAILURE|INFRA" | cut -c1-400 | head -${SEED_LINES:-6}
 rc=${PIPESTATUS[0]}
 git -C /repo worktree remove --force "$W"; (cd "$V" && /venv/bin/python -m vlib.translate.all >/dev/null 2>&1)
